@@ -18,7 +18,7 @@ use vlib::peer::{amqp_error, drive, settle, trace_to_strings, Auto, Body, Dirn, 
 use vlib::report::{Ctx, Outcome};
 use vlib::runner::{run_exec, RunCfg, Scenario};
 use vlib::tape::Kind;
-use vlib::util::h64;
+use vlib::util::{h64, par_map};
 use vlib::vpipe::Pipe;
 
 #[derive(Debug, Clone, Copy, PartialEq, Eq, Hash)]
@@ -509,6 +509,9 @@ pub async fn scenario(role: Role, ov: OpenVariant, idle: bool, events: Vec<Ev>) 
             break;
         }
         let mark = peer.trace.len();
+        // (for "ignores everything until the peer's close") the situation before the event: the library has
+        // sent a close with an error, the peer has neither closed nor gone, the library's side of the transport is up
+        let discarding_before = matches!(lib_closed(&peer.trace), Some(Some(_))) && peer_closed.is_none() && !peer_eof && !pipe.peer_closed(1);
         match ev {
             Ev::LBegin => {
                 if let Some(Handle::Client(c)) = handle.as_mut() {
@@ -756,6 +759,14 @@ pub async fn scenario(role: Role, ov: OpenVariant, idle: bool, events: Vec<Ev>) 
                 }
             }
         }
+        // after closing with an error the endpoint ignores everything until the peer's close: a frame from the
+        // peer (which has not closed yet) must not make it go away (shut / drop the transport)
+        if discarding_before && matches!(ev, Ev::PBeginUnknown | Ev::PEndUnmapped | Ev::PFlowUnmapped | Ev::PEmpty) && pipe.peer_closed(1) {
+            obs.fails.push((
+                "stopped-before-peer-close".into(),
+                format!("the library had closed with an error and was waiting for the peer's close; the peer's next frame ({:?}) was not ignored: the library shut the transport although the peer's close has not come", ev),
+            ));
+        }
         obs.fails.extend(judge_trace(&peer.trace, false));
         // canonical observable state
         let key = h64(&(
@@ -879,6 +890,13 @@ pub fn run(ctx: &Ctx) -> Outcome {
           }
         }
     }
+    // series: frames behind an illegal frame (the library has closed with an error and waits for the peer's close)
+    let behind = behind_series(ctx, deadline, &mut out);
+    executions += behind.0;
+    states += behind.1;
+    transitions += behind.2;
+    truncated |= behind.4;
+    out.set("frames_behind_an_illegal_frame_series", behind.3.clone());
     // schedule exploration: local close races the peer's close (real client <-> real listener)
     let sched1 = schedule_race(ctx, deadline, &mut out);
     let sched2 = schedule_close_vs_queued_ends(ctx, deadline, &mut out);
@@ -893,10 +911,20 @@ pub fn run(ctx: &Ctx) -> Outcome {
     out.set("schedule_executions", sched.0);
     out.set("samples", json!(samples));
     out.set("exhaustive", !truncated);
-    out.set("bound", format!("open variants: all 10 x 2 roles; histories: depth {depth} over {} events x roles x open variants; schedules: {}", ALPHABET.len(), sched.2));
+    out.set(
+        "bound",
+        format!(
+            "open variants: all {} x 2 roles; histories: depth {depth} over {} events x roles x open variants; frames behind an illegal frame: {}; schedules: {}",
+            OPEN_VARIANTS.len(),
+            ALPHABET.len(),
+            behind.3["bound"].as_str().unwrap_or(""),
+            sched.2
+        ),
+    );
     out.set("rule", "states = distinct canonical observable states (close sent/with error, peer closed, EOF, handle alive, sessions, pending calls) reached at quiescence; transitions = distinct (state, event, state) triples; every state is reached by executing the real connection engine");
     out.assume("the scripted peer reacts at quiescent points only (peer frames are never interleaved inside a library step) except in the schedule exploration, which runs two real endpoints");
-    out.assume("'illegal frame' is taken to be a frame on a channel the endpoint never mapped (begin naming an unknown remote-channel, end or flow on an unmapped channel) and a frame before open");
+    out.assume("'illegal frame' is taken to be a frame on a channel the endpoint never mapped (begin naming an unknown remote-channel, end or flow on an unmapped channel), a frame before open and a second open");
+    out.assume("'ignores everything until the peer's close' is taken to include: while the peer has neither closed nor gone away, no frame from the peer makes the endpoint go away (pending close()/on_close() does not return, the transport is not shut); which error the handle reports for a connection the library itself closed with an error is not judged, only that it is not a clean result");
     out
 }
 
@@ -1133,10 +1161,550 @@ fn schedule_close_vs_queued_ends(ctx: &Ctx, deadline: Instant, out: &mut Outcome
     (st.executions, st.points_total, format!("sessions-ending vs peer close, {} ({} executions, {} distinct traces)", bounds.describe(), st.executions, st.distinct_obs))
 }
 
+
+// ------------------------------------------------------------------------------------------------------------
+// Series "frames behind an illegal frame".
+//
+// The LIBRARY closes with an error (its reaction to an illegal frame of the peer).  The peer, which has not seen
+// that close yet, goes on sending (legal and illegal frames), and only then closes (or goes away).  The
+// statement: "after closing with an error the endpoint ignores everything until the peer's close; a frame that
+// is illegal in the current state closes the connection with an error instead of being acted on".
+//
+// Monitor (nothing beyond those words):
+//  * the illegal frame is answered by a close carrying an error (same classes as in the history search);
+//  * from then on the library writes nothing, whatever arrives;
+//  * it ignores what arrives *until the peer's close*: as long as the peer has neither closed nor gone away,
+//    no later frame makes the endpoint go away - the pending `on_close()` / `close()` of the application has
+//    not returned and the library's side of the transport has not been shut at any quiescent point before the
+//    harness sends the peer's close;
+//  * when the peer's close (clean or with an error) or EOF has arrived the call returns, and it does not
+//    report a clean result: the connection was closed with an error by the library itself ("a clean result
+//    for a clean close").  Permissive: ANY error is accepted (the library's own, the peer's, a transport
+//    error after EOF).
+#[derive(Debug, Clone, Copy, PartialEq, Eq, Hash)]
+pub enum Trig {
+    EndUnmapped,
+    BeginUnknown,
+    FlowUnmapped,
+    /// an open on an open connection
+    SecondOpen,
+}
+pub const TRIGS: [Trig; 4] = [Trig::EndUnmapped, Trig::BeginUnknown, Trig::FlowUnmapped, Trig::SecondOpen];
+
+/// what the peer sends while the library waits for the peer's close (the last two need a mapped session)
+#[derive(Debug, Clone, Copy, PartialEq, Eq, Hash)]
+pub enum Later {
+    Empty,
+    /// a begin for a session of the peer's own (legal for a peer that has not seen the close)
+    BeginNew,
+    BeginUnknown,
+    EndUnmapped,
+    FlowUnmapped,
+    SecondOpen,
+    /// a flow on the channel of the session the library began (legal)
+    FlowMapped,
+    /// an end of that session (legal)
+    EndMapped,
+}
+pub const LATERS: [Later; 8] = [
+    Later::Empty,
+    Later::BeginNew,
+    Later::BeginUnknown,
+    Later::EndUnmapped,
+    Later::FlowUnmapped,
+    Later::SecondOpen,
+    Later::FlowMapped,
+    Later::EndMapped,
+];
+const LATERS_WITHOUT_SESSION: usize = 6;
+
+#[derive(Debug, Clone, Copy, PartialEq, Eq, Hash)]
+pub enum Fin {
+    Close,
+    CloseErr,
+    Eof,
+}
+pub const FINS: [Fin; 3] = [Fin::Close, Fin::CloseErr, Fin::Eof];
+
+/// the application's call whose result is watched
+#[derive(Debug, Clone, Copy, PartialEq, Eq, Hash)]
+pub enum Watch {
+    OnClose,
+    Close,
+}
+pub const WATCHES: [Watch; 2] = [Watch::OnClose, Watch::Close];
+
+#[derive(Debug, Clone, PartialEq, Eq, Hash)]
+pub struct Behind {
+    pub role: Role,
+    pub trig: Trig,
+    /// (client only) the library has begun a session before
+    pub session: bool,
+    pub later: Vec<Later>,
+    pub fin: Fin,
+    pub watch: Watch,
+    /// the illegal frame, the later frames and the peer's close arrive in one write (a pipelining peer); the
+    /// application's call is made when all of it has been processed.  Otherwise: one frame, quiescence, look.
+    pub burst: bool,
+}
+
+impl Behind {
+    fn to_json(&self) -> serde_json::Value {
+        json!({
+            "kind": "behind-illegal-frame",
+            "role": format!("{:?}", self.role),
+            "trig": TRIGS.iter().position(|t| *t == self.trig),
+            "session": self.session,
+            "later": self.later.iter().map(|l| LATERS.iter().position(|x| x == l).unwrap_or(0)).collect::<Vec<_>>(),
+            "fin": FINS.iter().position(|t| *t == self.fin),
+            "watch": WATCHES.iter().position(|t| *t == self.watch),
+            "burst": self.burst,
+            "names": format!("{:?}", self),
+        })
+    }
+    fn from_json(r: &serde_json::Value) -> Behind {
+        let ix = |k: &str, n: usize| (r[k].as_u64().unwrap_or(0) as usize).min(n - 1);
+        Behind {
+            role: if r["role"] == "Listener" { Role::Listener } else { Role::Client },
+            trig: TRIGS[ix("trig", TRIGS.len())],
+            session: r["session"].as_bool().unwrap_or(false),
+            later: r["later"].as_array().map(|a| a.iter().filter_map(|x| x.as_u64()).map(|i| LATERS[(i as usize).min(LATERS.len() - 1)]).collect()).unwrap_or_default(),
+            fin: FINS[ix("fin", FINS.len())],
+            watch: WATCHES[ix("watch", WATCHES.len())],
+            burst: r["burst"].as_bool().unwrap_or(false),
+        }
+    }
+}
+
+fn a_begin(remote_channel: Option<u16>) -> Begin {
+    Begin {
+        remote_channel,
+        next_outgoing_id: 0,
+        incoming_window: 10,
+        outgoing_window: 10,
+        handle_max: Default::default(),
+        offered_capabilities: None,
+        desired_capabilities: None,
+        properties: None,
+    }
+}
+
+fn a_flow() -> Flow {
+    Flow {
+        next_incoming_id: Some(0),
+        incoming_window: 10,
+        next_outgoing_id: 0,
+        outgoing_window: 10,
+        handle: None,
+        delivery_count: None,
+        link_credit: None,
+        available: None,
+        drain: false,
+        echo: false,
+        properties: None,
+    }
+}
+
+fn send_trig(peer: &mut Peer, t: Trig) -> &'static str {
+    match t {
+        Trig::EndUnmapped => {
+            peer.send(9, Performative::End(End { error: None }));
+            "end-on-unmapped-channel"
+        }
+        Trig::BeginUnknown => {
+            peer.send(3, Performative::Begin(a_begin(Some(7))));
+            "begin-with-unknown-remote-channel"
+        }
+        Trig::FlowUnmapped => {
+            peer.send(9, Performative::Flow(a_flow()));
+            "flow-on-unmapped-channel"
+        }
+        Trig::SecondOpen => {
+            peer.send(0, Performative::Open(peer_open()));
+            "second-open"
+        }
+    }
+}
+
+fn send_later(peer: &mut Peer, l: Later, session_channel: u16) {
+    match l {
+        Later::Empty => peer.send_empty(),
+        Later::BeginNew => peer.send(6, Performative::Begin(a_begin(None))),
+        Later::BeginUnknown => peer.send(4, Performative::Begin(a_begin(Some(8)))),
+        Later::EndUnmapped => peer.send(9, Performative::End(End { error: None })),
+        Later::FlowUnmapped => peer.send(9, Performative::Flow(a_flow())),
+        Later::SecondOpen => peer.send(0, Performative::Open(peer_open())),
+        Later::FlowMapped => {
+            let f = peer.flow_for(0);
+            peer.send(session_channel, Performative::Flow(f));
+        }
+        Later::EndMapped => peer.send(session_channel, Performative::End(End { error: None })),
+    }
+}
+
+fn send_fin(peer: &mut Peer, f: Fin) {
+    match f {
+        Fin::Close => peer.send(0, Performative::Close(Close { error: None })),
+        Fin::CloseErr => peer.send(0, Performative::Close(Close { error: Some(peer_err()) })),
+        Fin::Eof => peer.close_write(),
+    }
+}
+
+#[derive(Debug, Clone, Default)]
+pub struct BehindObs {
+    pub setup_error: Option<String>,
+    pub fails: Vec<(String, String)>,
+    pub trace: Vec<String>,
+    /// (event label, canonical observable state after it)
+    pub steps: Vec<(String, u64)>,
+    /// quiescent points at which the library was seen still waiting for the peer's close
+    pub waiting_checks: u64,
+    /// frames that reached the library while it was waiting for the peer's close
+    pub frames_while_waiting: u64,
+    pub result: String,
+}
+
+pub async fn behind_scenario(c: Behind) -> BehindObs {
+    let mut obs = BehindObs::default();
+    let (pipe, a, _b) = Pipe::new();
+    let h = Duration::from_secs(5);
+    let mut auto = if c.role == Role::Client { Auto::default() } else { Auto::none() };
+    auto.max_frame_size = 4096;
+    // the peer's close is sent by the script, never as an automatic answer
+    auto.close = false;
+    let mut peer = Peer::new(pipe.clone(), 1, auto);
+    let mut session = None;
+    // ---- start state: an open connection (client: optionally with one session)
+    let mut handle = match c.role {
+        Role::Client => match drive(&mut peer, Connection::builder().container_id("lib").max_frame_size(4096).channel_max(5).open_with_stream(a), h).await {
+            Some(Ok(mut conn)) => {
+                if c.session {
+                    match drive(&mut peer, Session::begin(&mut conn), h).await {
+                        Some(Ok(s)) => session = Some(s),
+                        other => {
+                            obs.setup_error = Some(format!("begin: {:?}", other.map(|r| r.map(|_| ()).map_err(|e| e.to_string()))));
+                            return obs;
+                        }
+                    }
+                }
+                Handle::Client(conn)
+            }
+            other => {
+                obs.setup_error = Some(format!("open: {:?}", other.map(|r| r.map(|_| ()).map_err(|e| e.to_string()))));
+                return obs;
+            }
+        },
+        Role::Listener => {
+            peer.send_proto_header(AMQP_HEADER);
+            peer.send(0, Performative::Open(peer_open()));
+            let acceptor = ConnectionAcceptor::new("lib-listener");
+            match drive(&mut peer, acceptor.accept(a), h).await {
+                Some(Ok(conn)) => Handle::Listener(conn),
+                other => {
+                    obs.setup_error = Some(format!("accept: {:?}", other.map(|r| r.map(|_| ()).map_err(|e| e.to_string()))));
+                    return obs;
+                }
+            }
+        }
+    };
+    settle(&mut peer, 2).await;
+    if lib_closed(&peer.trace).is_some() || !lib_opened(&peer.trace) || pipe.peer_closed(1) {
+        obs.setup_error = Some("start state not reached: the connection is not open".into());
+        return obs;
+    }
+    let session_channel = if c.session { peer.our_channel(0) } else { 0 };
+    // ---- the illegal frame (burst: and everything behind it)
+    let what = send_trig(&mut peer, c.trig);
+    if c.burst {
+        for l in &c.later {
+            send_later(&mut peer, *l, session_channel);
+        }
+        send_fin(&mut peer, c.fin);
+    }
+    settle(&mut peer, 3).await;
+    let own_error = match lib_closed(&peer.trace) {
+        None => {
+            obs.fails.push((format!("illegal-frame-not-closed {what}"), format!("a {what} did not close the connection (no close frame at the next quiescent state)")));
+            None
+        }
+        Some(None) => {
+            obs.fails.push((format!("illegal-frame-closed-without-error {what}"), format!("a {what} closed the connection but the close carries no error")));
+            None
+        }
+        Some(Some(e)) => Some(e),
+    };
+    let close_at = peer.trace.iter().position(|w| w.dir == Dirn::FromLib && matches!(&w.body, Body::Perf(Performative::Close(_))));
+    let key = |label: &str, peer: &Peer, returned: bool| -> (String, u64) {
+        let lc = lib_closed(&peer.trace);
+        (label.to_string(), h64(&(lc.is_some(), lc.map(|e| e.is_some()), returned, pipe.peer_closed(1), peer.close_sent)))
+    };
+    obs.steps.push(key(what, &peer, false));
+    if let Some(own_error) = own_error {
+        // ---- the application's call, kept pending across the steps
+        let watch = c.watch;
+        let mut fut: std::pin::Pin<Box<dyn std::future::Future<Output = Result<(), ConnError>> + '_>> = match (&mut handle, watch) {
+            (Handle::Client(conn), Watch::OnClose) => Box::pin(conn.on_close()),
+            (Handle::Client(conn), Watch::Close) => Box::pin(conn.close()),
+            (Handle::Listener(conn), Watch::OnClose) => Box::pin(conn.on_close()),
+            (Handle::Listener(conn), Watch::Close) => Box::pin(conn.close()),
+        };
+        let mut done: Option<Result<(), ConnError>> = None;
+        macro_rules! quiesce {
+            ($rounds:expr) => {
+                for _ in 0..$rounds {
+                    if done.is_none() {
+                        tokio::select! {
+                            biased;
+                            r = &mut fut => { done = Some(r); }
+                            _ = tokio::time::sleep(Duration::from_millis(1)) => {}
+                        }
+                    } else {
+                        tokio::time::sleep(Duration::from_millis(1)).await;
+                    }
+                    peer.pump();
+                }
+            };
+        }
+        // the library wrote something after its close: it acted on what it has to ignore
+        let wrote_after_close = |peer: &Peer| -> Option<String> { close_at.and_then(|k| peer.trace[k + 1..].iter().find(|w| w.dir == Dirn::FromLib).map(|w| w.short())) };
+        let mut stopped_early = false;
+        if !c.burst {
+            quiesce!(3);
+            let mut after = "its-own-close".to_string();
+            let mut sent = 0;
+            loop {
+                // still there, waiting for the peer's close?
+                if let Some(r) = &done {
+                    obs.fails.push((
+                        format!("stopped-before-peer-close on-{after}"),
+                        format!("the library closed with {:?} on a {what} and has to ignore everything until the peer's close; after {after} (peer has neither closed nor gone) {:?}() returned {:?}", own_error.condition, watch, r.as_ref().map_err(|e| e.to_string())),
+                    ));
+                    stopped_early = true;
+                } else if pipe.peer_closed(1) {
+                    obs.fails.push((
+                        format!("stopped-before-peer-close on-{after}"),
+                        format!("the library closed with {:?} on a {what} and has to ignore everything until the peer's close; after {after} (peer has neither closed nor gone) it shut its side of the transport", own_error.condition),
+                    ));
+                    stopped_early = true;
+                } else {
+                    obs.waiting_checks += 1;
+                }
+                if let Some(w) = wrote_after_close(&peer) {
+                    obs.fails.push((format!("acted-on-frame-after-error-close on-{after}"), format!("after its close({:?}) the library wrote {w} (after {after})", own_error.condition)));
+                }
+                if stopped_early || sent == c.later.len() {
+                    break;
+                }
+                let l = c.later[sent];
+                sent += 1;
+                send_later(&mut peer, l, session_channel);
+                obs.frames_while_waiting += 1;
+                after = format!("{:?}", l);
+                quiesce!(3);
+                obs.steps.push(key(&after, &peer, done.is_some()));
+            }
+            if !stopped_early {
+                send_fin(&mut peer, c.fin);
+            }
+        }
+        if !stopped_early {
+            quiesce!(6);
+            obs.steps.push(key(&format!("{:?}", c.fin), &peer, done.is_some()));
+            let fin_s = match c.fin {
+                Fin::Close => "the peer's close",
+                Fin::CloseErr => "the peer's close (with an error)",
+                Fin::Eof => "the peer shut the transport",
+            };
+            match &done {
+                None => obs.fails.push((
+                    "close-hangs after-error-close".into(),
+                    format!("the library closed with {:?} on a {what}; {fin_s} has arrived but {:?}() is still pending", own_error.condition, watch),
+                )),
+                Some(Ok(())) => obs.fails.push((
+                    "own-error-close-reported-clean".into(),
+                    format!("the library itself closed the connection with {:?} (on a {what}); after {fin_s} {:?}() returned Ok(()) - a clean result for a connection that was closed with an error", own_error.condition, watch),
+                )),
+                // permissive: any error
+                Some(Err(_)) => {}
+            }
+            if let Some(w) = wrote_after_close(&peer) {
+                obs.fails.push(("acted-on-frame-after-error-close".into(), format!("after its close({:?}) the library wrote {w}", own_error.condition)));
+            }
+        }
+        obs.result = match &done {
+            None => "pending".into(),
+            Some(Ok(())) => "Ok".into(),
+            Some(Err(e)) => format!("Err({})", format!("{:?}", e).split(|ch: char| !ch.is_alphanumeric()).next().unwrap_or("")),
+        };
+        drop(fut);
+    }
+    obs.fails.extend(judge_trace(&peer.trace, false));
+    obs.fails.sort();
+    obs.fails.dedup();
+    obs.trace = trace_to_strings(&peer.trace);
+    obs.trace.push(format!("case={:?} result={}", c, obs.result));
+    drop(session);
+    drop(handle);
+    obs
+}
+
+fn run_behind(c: &Behind) -> (BehindObs, Option<String>) {
+    let scen: Scenario<BehindObs> = {
+        let c = c.clone();
+        Arc::new(move || Box::pin(behind_scenario(c.clone())))
+    };
+    let ex = run_exec(vec![], &RunCfg::none(), &scen);
+    let mut machinery = None;
+    let mut o = match ex.out {
+        Some(o) => o,
+        None => {
+            let mut o = BehindObs::default();
+            if ex.watchdog {
+                o.fails.push(("real-time-hang".into(), "the execution did not finish in real time".into()));
+            } else {
+                machinery = Some(format!("behind-illegal-frame scenario panicked: {:?} ({:?})", ex.panics, c));
+            }
+            o
+        }
+    };
+    if let Some(e) = o.setup_error.take() {
+        machinery = Some(format!("behind-illegal-frame series, {:?}: {e}", c));
+    }
+    if ex.spun {
+        o.fails.push(("spin".into(), "some task polled more than 20000 times at one virtual instant (busy loop)".into()));
+    }
+    for p in ex.panics.iter().filter(|p| !p.contains("vcheck/src")) {
+        o.fails.push(("panic".into(), format!("a library task panicked: {p}")));
+    }
+    let role = c.role;
+    o.fails = o.fails.into_iter().map(|(s, d)| (format!("{s} [{:?}]", role), format!("{:?}: {d}", c))).collect();
+    (o, machinery)
+}
+
+fn behind_cases(quick: bool) -> Vec<Behind> {
+    let maxlen = if quick { 2 } else { 3 };
+    let mut v = vec![];
+    for (role, session) in [(Role::Client, false), (Role::Client, true), (Role::Listener, false)] {
+        let a = if session { LATERS.len() } else { LATERS_WITHOUT_SESSION };
+        // all sequences of 0..=maxlen later frames
+        let mut seqs: Vec<Vec<Later>> = vec![vec![]];
+        let mut layer: Vec<Vec<Later>> = vec![vec![]];
+        for _ in 0..maxlen {
+            layer = layer
+                .iter()
+                .flat_map(|p| {
+                    LATERS[..a].iter().map(move |l| {
+                        let mut q = p.clone();
+                        q.push(*l);
+                        q
+                    })
+                })
+                .collect();
+            seqs.extend(layer.iter().cloned());
+        }
+        for trig in TRIGS {
+            for later in &seqs {
+                for fin in FINS {
+                    for watch in WATCHES {
+                        for burst in [false, true] {
+                            v.push(Behind { role, trig, session, later: later.clone(), fin, watch, burst });
+                        }
+                    }
+                }
+            }
+        }
+    }
+    v
+}
+
+/// returns (executions, distinct states, distinct transitions, evidence)
+fn behind_series(ctx: &Ctx, deadline: Instant, out: &mut Outcome) -> (u64, u64, u64, serde_json::Value, bool) {
+    let cases = behind_cases(ctx.quick());
+    let results = par_map(&cases, ctx.threads, |_, c| {
+        if Instant::now() > deadline {
+            return None;
+        }
+        Some(run_behind(c))
+    });
+    let mut states: std::collections::HashSet<u64> = Default::default();
+    let mut transitions: std::collections::HashSet<(u64, String, u64)> = Default::default();
+    let mut executions = 0u64;
+    let mut waiting = 0u64;
+    let mut frames = 0u64;
+    let mut skipped = 0u64;
+    let mut by_result: std::collections::BTreeMap<String, u64> = Default::default();
+    let mut kept: std::collections::BTreeMap<String, usize> = Default::default();
+    let mut sample = None;
+    for (c, r) in cases.iter().zip(results) {
+        let Some((o, machinery)) = r else {
+            skipped += 1;
+            continue;
+        };
+        executions += 1;
+        waiting += o.waiting_checks;
+        frames += o.frames_while_waiting;
+        *by_result.entry(format!("{:?}/{:?}: {}", c.fin, c.watch, o.result)).or_insert(0) += 1;
+        if let Some(m) = machinery {
+            if out.machinery_errors.len() < 10 {
+                out.machinery_errors.push(m);
+            }
+        }
+        let mut prev = 0u64;
+        for (label, k) in &o.steps {
+            states.insert(*k);
+            transitions.insert((prev, label.clone(), *k));
+            prev = *k;
+        }
+        for (s, d) in &o.fails {
+            // the cases are enumerated shortest first: the first ones of a class are the smallest
+            let n = kept.entry(s.clone()).or_insert(0);
+            if *n < 3 {
+                *n += 1;
+                let mut rp = c.to_json();
+                rp["trace"] = json!(o.trace);
+                out.violation(s.clone(), d.clone(), rp);
+            }
+        }
+        if sample.is_none() && !c.burst && c.later.len() == 2 && c.session && o.fails.is_empty() {
+            sample = Some(json!({"case": format!("{:?}", c), "trace": o.trace}));
+        }
+    }
+    let ev = json!({
+        "executions": executions,
+        "cases_not_run_budget": skipped,
+        "quiescent_points_library_seen_waiting_for_peer_close": waiting,
+        "frames_sent_while_library_waits_for_peer_close": frames,
+        "results_by_ending_and_call": by_result,
+        "bound": format!("roles client (with and without a session) and listener x 4 illegal frames (end/flow on an unmapped channel, begin with an unknown remote-channel, second open) x all sequences of 0..={} later frames over {} kinds ({} without a session) x peer ends with close / close(error) / EOF x the application waits in on_close() / close() x frame-by-frame / one burst", if ctx.quick() { 2 } else { 3 }, LATERS.len(), LATERS_WITHOUT_SESSION),
+        "sample": sample,
+    });
+    (executions, states.len() as u64, transitions.len() as u64, ev, skipped > 0)
+}
+
 fn replay(p: &std::path::Path, mut out: Outcome) -> Outcome {
     let s = std::fs::read_to_string(p).unwrap_or_default();
     let j: serde_json::Value = serde_json::from_str(&s).unwrap_or_default();
     let r = &j["replay"];
+    if r["kind"] == "behind-illegal-frame" {
+        let c = Behind::from_json(r);
+        println!("replaying {:?}", c);
+        let (o, machinery) = run_behind(&c);
+        for l in &o.trace {
+            println!("  {l}");
+        }
+        if let Some(m) = machinery {
+            out.machinery_errors.push(m);
+        }
+        for (s, d) in o.fails {
+            println!("  FAIL {s}: {d}");
+            out.violation(s, d, r.clone());
+        }
+        out.set("states", 1);
+        out.set("transitions", 1);
+        out.set("traces_validated_against_impl", 1);
+        out.set("samples", json!([r]));
+        return out;
+    }
     let role = if r["role"] == "Listener" { Role::Listener } else { Role::Client };
     let ov = OPEN_VARIANTS.iter().copied().find(|o| format!("{:?}", o) == r["open"].as_str().unwrap_or("")).unwrap_or(OpenVariant::Default);
     let evs: Vec<Ev> = r["events"].as_array().map(|a| a.iter().filter_map(|x| x.as_u64()).map(|i| ALPHABET[i as usize]).collect()).unwrap_or_default();
